@@ -62,8 +62,15 @@ def main(argv: list[str] | None = None) -> int:
     if args.replay:
         data = json.loads(open(args.replay).read())
         case = data["case"]
-        res = engine.ShardResult()
-        mod.run_shard(case["shard"], ctx, res, case.get("inner"))
+        status, res, why = engine.run_case_isolated(modname, case["shard"], case.get("inner"), ctx)
+        if status == "died":
+            print(f"VIOLATION property={prop} replay={args.replay}")
+            print("  signature:", json.dumps({"site": "process", "symptom": "interpreter died while replaying the case"}))
+            print("  detail:", why[:1500])
+            return 1
+        if status == "error":
+            print("HARNESS-ERROR: replay raised\n" + why[-1500:])
+            return 2
         if res.violations:
             for v in res.violations:
                 print(f"VIOLATION property={prop} replay={args.replay}")
@@ -101,13 +108,12 @@ def main(argv: list[str] | None = None) -> int:
             continue
         # reproduce once from fresh inputs before reporting
         if getattr(mod, "REPRODUCE", True) and not v["case"].get("no_reproduce"):
-            rr = engine.ShardResult()
-            try:
-                mod.run_shard(v["case"]["shard"], ctx, rr, v["case"].get("inner"))
-            except BaseException as e:  # noqa: BLE001
-                harness_errors.append(f"re-run of violating case raised {e!r}")
+            status, rr, why = engine.run_case_isolated(modname, v["case"]["shard"], v["case"].get("inner"), ctx)
+            if status == "error":
+                harness_errors.append(f"re-run of violating case raised {why[-600:]}")
                 continue
-            same = [x for x in rr.violations if engine.sig_key(x["signature"]) == key]
+            # a re-run that kills its interpreter (memory corruption in compiled code) confirms rather than refutes the violation
+            same = [v] if status == "died" else [x for x in rr.violations if engine.sig_key(x["signature"]) == key]
             if not same:
                 harness_errors.append(
                     "violation did not reproduce on re-run (harness nondeterminism): "
